@@ -199,6 +199,9 @@ def build_sender(e, nouts=1, balance=False, slots=(), outs_required=None):
 
 def queue_request(s, out, cid, mid, eph=0, new=False, uid='u'):
     env = {'cid': cid, 'uid': uid, 'mid': mid}
+    if mid == Z.MSG_ID_OOB:          # out-of-band message as ZMQReceiver.send_oob builds it: no 'eph' / 'new' keys, an 'xtra' payload
+        env['xtra'] = 'oob'
+        s.pulls[out].inq.append([Env(env)]); return
     if eph: env['eph'] = eph
     if new: env['new'] = True
     s.pulls[out].inq.append([Env(env)])
